@@ -19,6 +19,7 @@ import asyncio
 import json
 import re
 import signal
+import decimal
 import warnings
 from typing import Any
 
@@ -66,6 +67,38 @@ KNOWN_WITNESSES = [
     ("{% for i in (1..x) %}{{ i }}{% endfor %}", {"x": 10 ** 400}), ("{{ (1..x) | size }}", {"x": 10 ** 400}),
     ("{{ '", {}), ("{{ ..1) }}", {}), ("{{ \"${ (1..3) }\" }}", {}), ("{{", {}), ("{% liquid", {}),
     ("{% comment %}", {}), ("{{ a b", {}),
+]
+
+
+def _dd() -> Any:
+    import collections
+    d: Any = collections.defaultdict(list)
+    d["a"], d["b"] = 1, 2
+    return d
+
+
+_W_TEMPLATES = {"inc": "{% macro m %}{% extends 'base' %}{% endmacro %}{% call m %}", "base": "{% block b %}{% endblock %}",
+                "mac": "{% call m %}", "ext": "{% extends 'base' %}{% block b %}x{% endblock %}"}
+# (shopify environment?, source, data) -- rendered with _W_TEMPLATES loadable; repaired by proposed_fixes/C02/0022-0032
+KNOWN_WITNESSES_2 = [
+    (False, "{{ a | map: k: 1 => 2 }}", {"a": [1]}), (False, "{{ a | map: k: (1) => 2 }}", {"a": [1]}), (False, "{{ a | where: 1 => 2 }}", {"a": [1]}),
+    (False, "{% include 'inc' %}", {}), (False, "{% macro m %}{% extends 'base' %}{% endmacro %}{% include 'mac' %}", {}),
+    (False, "{% if true %}{% extends 'base' %}{% endif %}", {}), (False, "{% for i in (1..2) %}{% extends 'base' %}{% endfor %}", {}),
+    (False, "{{ a[" + "9" * 5000 + "] }}", {"a": [1]}), (False, "{{ a." + "9" * 5000 + " }}", {"a": [1]}),
+    (False, "{% include x %}", {"x": 10 ** 5000}), (False, "{% render x %}", {"x": 10 ** 5000}),
+    (False, "{% translate context: x %}a{% endtranslate %}", {"x": 10 ** 5000}), (False, "{{ 'a' | t: x }}", {"x": 10 ** 5000}),
+    (False, "{{ 'x' | t }}", {"translations": 5}), (False, "{% translate %}a{% endtranslate %}", {"translations": "s"}),
+    (False, "{{ 'x' | ngettext: 'y', 2 }}", {"translations": [1]}),
+    (False, "{% if x < 1 %}{% endif %}", {"x": decimal.Decimal("NaN")}), (False, "{% if x == y %}{% endif %}", {"x": decimal.Decimal("sNaN"), "y": 1}),
+    (False, "{% case x %}{% when 1 %}{% endcase %}", {"x": decimal.Decimal("sNaN")}),
+    (False, "{{ a | sort }}{{ a | sort_numeric }}{{ a | uniq }}{% if a contains x %}{% endif %}",
+     {"a": [decimal.Decimal("NaN"), decimal.Decimal(1), decimal.Decimal("sNaN")], "x": decimal.Decimal("sNaN")}),
+    (False, "{% for k in d %}{{ d.zzz }}{% endfor %}", {"d": _dd()}), (False, "{% for k in d %}{{ d[k[0]] }}{{ d.q }}{% endfor %}", {"d": _dd()}),
+    (True, "{% tablerow i in (1..3) cols: x %}{{ i }}{% endtablerow %}", {"x": [1]}),
+    (True, "{% tablerow i in (1..3) cols: x %}{{ i }}{% endtablerow %}", {"x": None}),
+    (True, "{% tablerow i in (1..3) cols: nosuch %}{{ i }}{% endtablerow %}", {}),
+    (True, "{% tablerow i in (1..3) %}{% for x in tablerowloop %}{{ x }}{% endfor %}{% endtablerow %}", {}),
+    (True, "{% tablerow i in (1..2) %}{% if tablerowloop == 1 %}{% endif %}{{ tablerowloop | json }}{% endtablerow %}", {}),
 ]
 
 
@@ -413,6 +446,165 @@ def errctx_items(r: Any, n: int) -> list[dict[str, Any]]:
     return items
 
 
+_LITERAL_CHILD = r"""
+import json, resource, sys
+resource.setrlimit(resource.RLIMIT_AS, (1536 * 1024 ** 2, 1536 * 1024 ** 2))
+from liquid2.exceptions import LiquidError
+from harness import lexdump as L
+import liquid2.shopify
+env = liquid2.shopify.Environment()
+cases = json.load(open(sys.argv[1]))
+for k in range(int(sys.argv[2]), len(cases)):
+    print("S", k, flush=True)
+    try:
+        env.from_string(cases[k]).render(a=[1, 2], x=None)
+        out = "ok"
+    except LiquidError as e:
+        out = "LiquidError " + type(e).__name__
+    except BaseException as e:
+        out = "PyExc " + type(e).__name__ + " @ " + L.innermost(e)
+    print("E", k, out, flush=True)
+"""
+
+
+def literal_budget_stream(chk: C.Check, r: Any, stats: dict[str, int]) -> None:
+    """Parse (and render) short templates whose numeric literals denote huge
+    values, in a child process with a 1.5 GB address-space limit; each case
+    must finish within a 5 s wall-clock budget. An overrun (or the death of the
+    child) is a finding: parse time must be bounded by the size of the source."""
+    import os
+    import select
+    import subprocess
+    import sys
+    import tempfile
+    import time
+
+    cases = G2.literal_cases(r, chk.tier)
+    fd, path = tempfile.mkstemp(prefix="c02_lit_", suffix=".json", dir=os.environ.get("VERIF_SCRATCH", "/var/tmp"))
+    with os.fdopen(fd, "w") as f:
+        json.dump(cases, f)
+    budget = 5.0
+    k = 0
+    overruns = 0
+    child_env = dict(os.environ, PYTHONPATH=os.pathsep.join(p for p in sys.path if p))
+    try:
+        while k < len(cases) and overruns < 4:     # four overruns say enough; each costs the whole budget
+            proc = subprocess.Popen([sys.executable, "-W", "ignore", "-c", _LITERAL_CHILD, path, str(k)], env=child_env,
+                                    stdout=subprocess.PIPE, stderr=subprocess.DEVNULL, text=True, bufsize=1)
+            current = None
+            started = time.time()
+            overrun = False
+            assert proc.stdout is not None
+            while True:
+                limit = (budget if current is not None else 30.0) - (time.time() - started)
+                ready = select.select([proc.stdout], [], [], max(limit, 0))[0] if limit > 0 else []
+                if not ready:
+                    overrun = True
+                    break
+                line = proc.stdout.readline()
+                if not line:
+                    break
+                parts = line.split(" ", 2)
+                if parts[0] == "S":
+                    current, started = int(parts[1]), time.time()
+                elif parts[0] == "E":
+                    stats["literal_budget_cases"] = stats.get("literal_budget_cases", 0) + 1
+                    out = parts[2].strip() if len(parts) > 2 else ""
+                    if out.startswith("PyExc"):
+                        stats["python_exceptions"] += 1
+                        chk.finding(out, f"a numeric literal made from_string/render raise {out}",
+                                    {"source": cases[int(parts[1])][:300], "stream": "numeric literals under a budget"})
+                    k = int(parts[1]) + 1
+                    current, started = None, time.time()
+            proc.kill()
+            proc.wait()
+            if overrun or (current is not None):
+                overruns += 1
+                bad = current if current is not None else k
+                why = (f"did not finish within {budget:.0f} s" if overrun
+                       else f"killed the child process (exit {proc.returncode}; 1.5 GB address-space limit)")
+                chk.finding("parse budget overrun @ numeric literal",
+                            f"from_string/render of a {len(cases[bad])}-character template {why}",
+                            {"source": cases[bad][:300], "stream": "numeric literals under a budget"})
+                k = bad + 1
+            elif k < len(cases) and proc.returncode not in (0, None, -9):
+                k += 1
+    finally:
+        os.unlink(path)
+
+
+def mixed_api_stream(chk: C.Check, r: Any, stats: dict[str, int]) -> None:
+    """One cached template through both APIs: histories of (get_template |
+    get_template_async) x (render | render_async) on caching loaders, the sync
+    calls made from plain code and from a sync helper inside a running event
+    loop. Only normal results and LiquidErrors may come out."""
+    import os
+    import shutil
+    import tempfile
+    from pathlib import Path
+
+    from liquid2 import CachingDictLoader, CachingFileSystemLoader, Environment
+    from liquid2.exceptions import LiquidError
+
+    root = Path(tempfile.mkdtemp(prefix="c02_mix_", dir=os.environ.get("VERIF_SCRATCH", "/var/tmp")))
+    try:
+        for name, body in G2.MIXED_TEMPLATES.items():
+            f = root / name
+            f.parent.mkdir(parents=True, exist_ok=True)
+            f.write_text(body)
+        loaders = [("CachingFileSystemLoader", lambda: CachingFileSystemLoader(root, auto_reload=True)),
+                   ("CachingFileSystemLoader(auto_reload=False)", lambda: CachingFileSystemLoader(root, auto_reload=False)),
+                   ("CachingDictLoader", lambda: CachingDictLoader(dict(G2.MIXED_TEMPLATES)))]
+        for hist in G2.mixed_histories(r, chk.tier):
+            for lname, mk in loaders:
+                env = Environment(loader=mk())
+                loop = asyncio.new_event_loop()
+                trace = []
+                try:
+                    for name, (how_get, how_render, where) in hist:
+                        stats["mixed_api_steps"] = stats.get("mixed_api_steps", 0) + 1
+
+                        def sync_part(name: str = name, how_render: str = how_render, tmpl: Any = None) -> Any:
+                            t = tmpl if tmpl is not None else env.get_template(name)
+                            return t.render() if how_render == "render" else t
+
+                        async def step(name: str = name, how_get: str = how_get, how_render: str = how_render) -> Any:
+                            t = await env.get_template_async(name) if how_get == "get_async" else None
+                            if how_render == "render_async":
+                                t = t if t is not None else env.get_template(name)
+                                return await t.render_async()
+                            return sync_part(name, how_render, t)      # a sync helper inside the running loop
+
+                        signal.alarm(10)
+                        try:
+                            if where == "plain" and how_get == "get":
+                                sync_part()
+                            elif where == "plain":
+                                t0 = loop.run_until_complete(env.get_template_async(name))
+                                sync_part(tmpl=t0)
+                            else:
+                                loop.run_until_complete(step())
+                            trace.append("ok")
+                        except LiquidError as e:
+                            trace.append(type(e).__name__)
+                            check_exception(chk, e, "mixed API", {"history": hist, "loader": lname}, stats)
+                        except BaseException as e:  # noqa: BLE001
+                            signal.alarm(0)
+                            stats["python_exceptions"] += 1
+                            chk.finding(f"PyExc {type(e).__name__} @ {L.innermost(e)}",
+                                        f"step {len(trace) + 1} ({how_get}, {how_render}, {where}) on {name!r} raised "
+                                        f"{type(e).__name__} ({str(e)[:80]})",
+                                        {"history": hist, "loader": lname, "templates": G2.MIXED_TEMPLATES,
+                                         "stream": "mixed sync/async API on a caching loader", "before": trace})
+                            break
+                        finally:
+                            signal.alarm(0)
+                finally:
+                    loop.close()
+    finally:
+        shutil.rmtree(root, ignore_errors=True)
+
+
 def run_oracles(chk: C.Check, r: Any, stats: dict[str, int]) -> None:
     """The direct oracle over the UNMODELLED parser and renderer (no Coq involved).
     Runs under an address-space limit so that a runaway allocation becomes a
@@ -552,11 +744,22 @@ def _run_oracles(chk: C.Check, r: Any, stats: dict[str, int]) -> None:
     finally:
         shutil.rmtree(root, ignore_errors=True)
 
+    # ---- (d9) one cached template through the sync and the async API, also from inside a running loop
+    mixed_api_stream(chk, r, stats)
+    # ---- (d10) numeric literals of huge value: parse time bounded by the size of the source
+    literal_budget_stream(chk, r, stats)
+
     # ---- (e) the recorded witnesses, re-observed on every run
     for wcfg in ((True, True, False, False), (True, True, False, True)):
         env = env_pair({}, wcfg)
         for src, data in KNOWN_WITNESSES:
             run_one(chk, env, src, data, stats, {"source": src, "data": safe_repr(data), "recorded_witness": True})
+    for shop in (False, True):
+        env = env_pair(_W_TEMPLATES, (True, True, False, False), shopify=shop)
+        for wshop, src, data in KNOWN_WITNESSES_2:
+            if wshop == shop:
+                run_one(chk, env, src, data, stats, {"source": src[:300], "data": safe_repr(data), "templates": _W_TEMPLATES,
+                                                     "environment": "shopify" if shop else "default", "recorded_witness": True})
 
 
 
@@ -592,9 +795,8 @@ def main(chk: C.Check, build: C.Build) -> None:
             cs.add(s, k, len(s), "", sh, "prefix")
         for (i, j, ins) in G.edits(r, s, 6 if thorough else 2):
             cs.add(s, i, j, ins, sh, "edit")
-    for s in G.long_index_sources():
+    for s in G.long_index_sources()[:2]:      # the boundary pair; C17 carries all of them
         cs.whole(s, False, "pool")
-        cs.whole(s, True, "pool")
     for _ in range(6000 if thorough else 400):
         cs.whole(G.g_random(r), r.random() < 0.2, "random")
     shared = {b for b, k in cs.uses().items() if k >= 3}
@@ -637,18 +839,35 @@ def main(chk: C.Check, build: C.Build) -> None:
         if n % max(1, len(cs.items) // 3) == 0 and len(samples) < 3:
             samples.append({"source": src, "outcome": L.outcome_json(out)})
 
-    run_oracles(chk, r, stats)
+    # The model comparison only waits for coqc processes; it runs beside the
+    # (single-threaded, signal-using, hence main-thread) direct oracle.
+    import threading
 
-    both = sorted(litems + citems, key=lambda x: x["base"])
-    for gi in range(0, len(both), GROUP):
-        grp = both[gi:gi + GROUP]
-        used = sorted({x["base"] for x in grp} & shared)
-        defs = "\n".join(f"Definition B{b} : str := {C.cstr(cs.bases[b])}." for b in used)
-        L.correspond(chk, f"c02_lex_{gi // GROUP}", IMPORTS, defs, grp,
-                     what="Lex.lex + ErrCtx.error_context (malformed stream)",
-                     shard=max(50, -(-len(grp) // SHARDS)))
-    L.correspond(chk, "c02_ctx", IMPORTS, "", eitems, what="ErrCtx.error_context / line_number",
-                 shard=max(50, -(-len(eitems) // 16)))
+    failure: list[BaseException] = []
+
+    def compare_with_model() -> None:
+        try:
+            both = sorted(litems + citems, key=lambda x: x["base"])
+            for gi in range(0, len(both), GROUP):
+                grp = both[gi:gi + GROUP]
+                used = sorted({x["base"] for x in grp} & shared)
+                defs = "\n".join(f"Definition B{b} : str := {C.cstr(cs.bases[b])}." for b in used)
+                L.correspond(chk, f"c02_lex_{gi // GROUP}", IMPORTS, defs, grp,
+                             what="Lex.lex + ErrCtx.error_context (malformed stream)",
+                             shard=max(50, -(-len(grp) // SHARDS)))
+            L.correspond(chk, "c02_ctx", IMPORTS, "", eitems, what="ErrCtx.error_context / line_number",
+                         shard=max(50, -(-len(eitems) // 16)))
+        except BaseException as e:  # noqa: BLE001
+            failure.append(e)
+
+    worker = threading.Thread(target=compare_with_model, name="c02-model-comparison")
+    worker.start()
+    try:
+        run_oracles(chk, r, stats)
+    finally:
+        worker.join()
+    if failure:
+        raise failure[0]
     C.proofs_verdict(chk, proofs_ok)
 
     chk.coverage.update({
@@ -663,7 +882,8 @@ def main(chk: C.Check, build: C.Build) -> None:
         "tier_proved": "kernel: scanner + error formatter; parser and renderer by direct oracle only (C02 is partial)",
     })
     chk.assumptions += [
-        "the model is of the code WITH /verif/proposed_fixes/C02/0001-0006 and C17/0001-0004 applied",
+        "the model is of the code WITH /verif/proposed_fixes/C02/0001-0032 and C17/0001-0007 applied (C02/0024: an array index of more than 4300 digits is a syntax error)",
+        "numeric-literal budget: 5 s wall clock and 1.5 GB address space per template in a child process; int->str digit limit assumed to be the default 4300",
         "tag parsers on malformed token streams, filters and rendering are NOT modelled: searched by the direct oracle only",
         "limits for the oracle environment: loop_iteration_limit=3000, output_stream_limit=300000, context_depth_limit=12; 10 s alarm per case",
         "block nesting is not pushed towards Python's recursion limit",
